@@ -336,7 +336,7 @@ pub struct TxMeta {
     pub pool: Option<String>,
 }
 
-pub const MUTATIONS: [&str; 18] = [
+pub const MUTATIONS: [&str; 19] = [
     "value+1",
     "value-1",
     "repeat-input",
@@ -355,6 +355,7 @@ pub const MUTATIONS: [&str; 18] = [
     "empty-tx",
     "destroy-output",
     "input-taken-by-another-tx-of-the-batch",
+    "255-maximal-outputs",
 ];
 
 fn split(total: u128, weights: &[u8]) -> Vec<u128> {
@@ -1220,6 +1221,21 @@ impl<'a> Builder<'a> {
                     return (b, None, false);
                 }
                 b.tx.inputs.push(pool[j % pool.len()]);
+            }
+            "255-maximal-outputs" => {
+                // 255 outputs of the maximum coin value in one denomination plus the maximum fee: the declared total
+                // reaches 2^128 whatever the inputs are
+                let d = if j % 3 == 0 { Denom::Sym } else { Denom::Mel };
+                b.tx.outputs.clear();
+                for _ in 0..255 {
+                    b.tx.outputs.push(CoinData { covhash: CovSpec::True.hash(), value: CoinValue(MAX_COINVAL), denom: d, additional_data: Default::default() });
+                }
+                b.tx.fee = CoinValue(if j % 2 == 0 { MAX_COINVAL } else { MAX_COINVAL - 1 });
+                if j % 5 == 0 {
+                    b.tx.inputs.clear();
+                    b.inputs.clear();
+                    b.tx.covenants.clear();
+                }
             }
             "destroy-output" => {
                 if b.tx.outputs.is_empty() {
